@@ -106,20 +106,31 @@ def fold(node):
 
 
 def membership_list(repo, prop):
+    """the FlowUnits members for which the property is True: the getter is EVALUATED (CEval, defined below) once per member with `self` bound to that
+    member's token -- `self in [...]`, `any(self is u for u in (...))`, a chain of `==`, a set, a local table: all the same"""
     fn = repo.func(UTIL, "FlowUnits.%s" % prop)
-    rets = [s for s in walk(fn) if isinstance(s, ast.Return)]
-    if len(rets) != 1 or not isinstance(rets[0].value, ast.Compare) or not isinstance(rets[0].value.ops[0], ast.In):
-        raise ExtractError("FlowUnits.%s: expected `return self in [...]`" % prop)
-    lst = rets[0].value.comparators[0]
-    if not isinstance(lst, (ast.List, ast.Tuple, ast.Set)):
-        raise ExtractError("FlowUnits.%s: membership list not a literal" % prop)
-    names = set()
-    for e in lst.elts:
-        d = dotted(e)
-        if not d or not d.startswith("FlowUnits."):
-            raise ExtractError("FlowUnits.%s: element %s" % (prop, unparse(e)))
-        names.add(d.split(".")[1])
-    return names, fn
+    cls = repo.cls(UTIL, "FlowUnits")
+    names = [nm for nm, _v, _n in enum_members(cls)]
+    if len(names) < 10:
+        raise ExtractError("FlowUnits members not found")
+    tokens = {nm: Obj("FlowUnits." + nm, {"name": nm}, "FlowUnits") for nm in names}
+
+    def cattr(d):
+        parts = d.split(".")
+        if len(parts) == 2 and parts[0] == "FlowUnits" and parts[1] in tokens:
+            return tokens[parts[1]]
+        raise Unknown("unbound name %s" % d)
+    out = set()
+    for nm in names:
+        try:
+            v = CEval({"self": tokens[nm]}, cattr, lambda q: None).run(fn.body)
+        except (Unknown, ProgError) as e:
+            raise ExtractError("FlowUnits.%s not evaluable for %s: %s" % (prop, nm, e))
+        if not isinstance(v, bool):
+            raise ExtractError("FlowUnits.%s returns %r for %s, not a bool" % (prop, v, nm))
+        if v:
+            out.add(nm)
+    return out, fn
 
 
 # --------------------------------------------------------------------------------------------- container-aware evaluation (R-C17-3)
@@ -430,6 +441,9 @@ class CEval(Evaluator):
             return len(self.iterate(args[0], "len()"))
         if name == "range" and not kw and all(isinstance(a, int) for a in args):
             return list(range(*args))
+        if name in ("any", "all") and len(args) == 1 and not kw:
+            vals = [self.truth(x) for x in self.iterate(args[0], name + "()")]
+            return any(vals) if name == "any" else all(vals)
         if name in ("sorted", "reversed") and len(args) == 1 and (not kw or (name == "sorted" and set(kw) <= {"reverse"} and isinstance(kw.get("reverse", False), bool))):
             items = list(self.iterate(args[0], name + "()"))
             if name == "reversed":
